@@ -1,7 +1,7 @@
 (* C07 property theorems. Statements only; proofs are `exact lemma`. Third-party compressors appear as universally
    quantified functions with their round-trip behaviour as premises. All theorems are for every input (no bound). *)
 From Coq Require Import ZArith List Bool.
-From OG Require Import C07.Model C07.ProofsBase C07.ProofsS8 C07.ProofsInt C07.ProofsBool C07.ProofsFloat C07.ProofsString C07.ProofsSeg.
+From OG Require Import C07.Model C07.ModelRows C07.ProofsRows C07.ProofsBase C07.ProofsS8 C07.ProofsInt C07.ProofsBool C07.ProofsFloat C07.ProofsString C07.ProofsSeg.
 Import ListNotations.
 Open Scope Z_scope.
 
@@ -134,6 +134,30 @@ Theorem C07_replay_torn_tail : forall (wc : list Z -> list Z) (wd : list Z -> op
   replay wd fuel (file_of wc recs ++ firstn k (frame_enc wc typ p)) = recs.
 Proof. exact replay_torn_tail. Qed.
 Print Assumptions C07_replay_torn_tail.
+
+(* ---- rows codec (FastMarshalMultiRows / FastUnmarshalMultiRows) ---- *)
+Theorem C07_rows_roundtrip : forall rs trailing, Forall (fun r => row_ok r = true) rs -> len rs < M32 ->
+  d_batch (e_batch rs ++ trailing) = Some rs.
+Proof. exact rows_roundtrip. Qed.
+Print Assumptions C07_rows_roundtrip.
+
+(* every strict prefix of a marshalled batch is rejected, in particular one cut exactly at a row boundary *)
+Theorem C07_rows_prefix_rejected : forall rs k, Forall (fun r => row_ok r = true) rs -> len rs < M32 ->
+  (k < length (e_batch rs))%nat -> d_batch (firstn k (e_batch rs)) = None.
+Proof. exact rows_prefix_rejected. Qed.
+Print Assumptions C07_rows_prefix_rejected.
+
+Theorem C07_rows_cut_at_row_boundary_rejected : forall rs1 r rs2,
+  Forall (fun r => row_ok r = true) (rs1 ++ r :: rs2) -> len (rs1 ++ r :: rs2) < M32 -> e_row r <> [] ->
+  d_batch (be 4 (len (rs1 ++ r :: rs2)) ++ [1] ++ flat_map e_row rs1) = None.
+Proof. exact rows_cut_at_row_boundary_rejected. Qed.
+
+Example C07_ex_rows :
+  let r1 : rrow := ([99;112;117], ([], ([([104], [97])], ([([118], FNum 3 4609434218613702656); ([115], FStr [104;105])], ([], 100))))) in
+  let r2 : rrow := ([109], ([1;2], ([], ([([102], FNum 1 0)], ([(7, [0; 7])], M64 - 1))))) in
+  row_ok r1 = true /\ row_ok r2 = true /\ d_batch (e_batch [r1; r2]) = Some [r1; r2] /\
+  d_batch (firstn (5 + length (e_row r1)) (e_batch [r1; r2])) = None.
+Proof. vm_compute. repeat split. Qed.
 
 (* ---- non-vacuity: the hypotheses are satisfiable (identity compressors) and every mode has an applicable input ---- *)
 Definition idc (x : list Z) := x.
